@@ -58,6 +58,7 @@ class Eval:
         self.flag_uses: List[str] = []
         self.calls: List[ast.Call] = []
         self.lambdify_modules: List[Any] = []
+        self.local_funcs: Dict[str, ast.FunctionDef] = {}
 
     # ---- expressions
     def ev(self, n) -> Any:
@@ -132,6 +133,8 @@ class Eval:
     def item(self, b, k):
         if b[0] == "TUPLE" and 0 <= k < len(b) - 1:
             return b[1 + k]
+        if b[0] == "CSE" and k in (0, 1):
+            return ("CSE.P" if k == 0 else "CSE.B", b[1])
         if b[0] == "IDX" and b[1][0] == "FIRSTS" and False:
             pass
         return ("ITEM", b, k)
@@ -140,7 +143,45 @@ class Eval:
         # T[i] with T = [p[0] for p in P]  ==  P[i][0]
         if b[0] == "MAPITEM":
             return ("ITEM", ("IDX", b[1], i), b[2])
+        if b[0] == "GEN":
+            return self.subst_I(b[2], i)
         return ("IDX", b, i)
+
+    def subst_I(self, term, i):
+        if term == ("I",):
+            return i
+        if isinstance(term, tuple):
+            return tuple(self.subst_I(x, i) if isinstance(x, tuple) else x for x in term)
+        return term
+
+    def domain_of(self, src):
+        """(domain term, element term builder) of an iterable term"""
+        if src[0] == "RANGE":
+            n = src[1]
+            if n[0] == "LEN":
+                base = n[1]
+                if base[0] == "MAPITEM":
+                    base = base[1]
+                return ("DOM", base), (lambda I: I)
+            return ("RANGEDOM", n), (lambda I: I)
+        if src[0] == "ENUM":
+            return ("DOM", src[1]), (lambda I: ("TUPLE", I, self.idx(src[1], I)))
+        if src[0] == "ZIP":
+            return ("ZIPDOM",) + tuple(src[1:]), (lambda I: ("TUPLE",) + tuple(self.idx(x, I) for x in src[1:]))
+        return ("DOM", src), (lambda I: self.idx(src, I))
+
+    def gen(self, dom, body):
+        """canonical list term: [body(I) for I in dom]"""
+        I = ("I",)
+        if dom == ("DOM", ("EMPTY",)):
+            return ("EMPTY",)
+        if dom[0] == "DOM":
+            X = dom[1]
+            if body == ("IDX", X, I):
+                return X
+            if body[0] == "ITEM" and body[1] == ("IDX", X, I):
+                return ("MAPITEM", X, body[2])
+        return ("GEN", dom, body)
 
     def comp(self, n):
         if len(n.generators) != 1 or n.generators[0].ifs:
@@ -149,20 +190,16 @@ class Eval:
         src = self.ev(g.iter)
         saved = dict(self.env)
         self.loop_ids += 1
-        el = ("ELEM", src, self.loop_ids)
-        self.bind(g.target, el)
+        I = ("I", self.loop_ids)
+        dom, elem = self.domain_of(src)
+        self.bind(g.target, elem(I))
         body = self.ev(n.elt)
         self.env = saved
-        # [r[k] for r in X]
-        if body[0] == "ITEM" and body[1] == el:
-            return ("MAPITEM", src, body[2])
-        if body == el:
-            return src
-        return ("MAP", src, self.abstract_elem(body, el))
+        return self.gen(dom, self.abstract_elem(body, I))
 
     def abstract_elem(self, term, el):
         if term == el:
-            return ("IT",)
+            return ("I",)
         if isinstance(term, tuple):
             return tuple(self.abstract_elem(x, el) if isinstance(x, tuple) else x for x in term)
         return term
@@ -195,6 +232,8 @@ class Eval:
             mods = next((self.ev(k.value) for k in n.keywords if k.arg == "modules"), args[2] if len(args) > 2 else ("DEFAULT-MODULES",))
             self.lambdify_modules.append((mods, n.lineno))
             return ("LAMBDIFY", args[0] if args else ("?",), args[1] if len(args) > 1 else ("?",))
+        if isinstance(n.func, ast.Name) and n.func.id in self.local_funcs:
+            return self.inline(self.local_funcs[n.func.id], n, args, closure=True)
         if isinstance(n.func, ast.Name) and n.func.id in self.helpers and n.func.id not in self.env:
             # inline a module-level helper whose body is a single `return <expr>`
             h = self.helpers[n.func.id]
@@ -242,6 +281,37 @@ class Eval:
             return ("APPLY", callee, tuple(args), tuple(kws))
         return ("CALL", ast.unparse(n.func), tuple(args))
 
+    def inline(self, h: ast.FunctionDef, n: ast.Call, args, closure=False):
+        """evaluate a local closure (or helper) body with its parameters bound; straight-line code, flag branches and one final return"""
+        pos = [a.arg for a in h.args.posonlyargs + h.args.args]
+        params = pos + [a.arg for a in h.args.kwonlyargs]
+        if h.args.vararg or h.args.kwarg or len(args) > len(pos):
+            return ("OTHER", ast.unparse(n))
+        bound = dict(zip(pos, args))
+        for k in n.keywords:
+            if k.arg in params:
+                bound[k.arg] = self.ev(k.value)
+        defaults = dict(zip(pos[len(pos) - len(h.args.defaults):], h.args.defaults))
+        defaults.update({a.arg: d for a, d in zip(h.args.kwonlyargs, h.args.kw_defaults) if d is not None})
+        sub = Eval(self.ctx, self.rel, self.qual, self.flag, self.attrs)
+        sub.attrs = self.attrs
+        sub.env = dict(self.env) if closure else {}
+        sub.local_funcs = dict(self.local_funcs)
+        sub.loop_ids = self.loop_ids + 100
+        for p_ in params:
+            sub.env[p_] = bound[p_] if p_ in bound else (self.ev(defaults[p_]) if p_ in defaults else ("MISSING", p_))
+        sub.loopctx, sub.stores, sub.appends = [], [], {}
+        sub.block(h.body)
+        self.problems += sub.problems
+        self.flag_uses += sub.flag_uses
+        self.calls += sub.calls
+        self.lambdify_modules += sub.lambdify_modules
+        rets = [y for y in sub.yields if y[0] == "RETURN"]
+        if len(rets) != 1 or rets[0][2] or sub.stores or sub.appends:
+            self.problems.append(f"local function {h.name} is not straight-line code with one return")
+            return ("OTHER", ast.unparse(n))
+        return rets[0][1]
+
     def cond(self, test) -> Optional[bool]:
         t = self.ev(test)
         if t == ("CFGFIELD", "common_subexpression_elimination"):
@@ -287,6 +357,8 @@ class Eval:
                 pass
         elif isinstance(s, (ast.Assert, ast.Pass)):
             pass
+        elif isinstance(s, ast.FunctionDef):
+            self.local_funcs[s.name] = s
         elif isinstance(s, ast.Return):
             self.yields.append(("RETURN", self.ev(s.value) if s.value else None, tuple(self.loopctx)))
         else:
@@ -329,21 +401,36 @@ class Eval:
         src = self.ev(s.iter)
         self.loop_ids += 1
         lid = self.loop_ids
+        I = ("I", lid)
+        dom, elem = self.domain_of(src)
+        self.bind(s.target, elem(I))
         if src[0] == "RANGE":
-            i = ("LOOPIDX", lid)
-            self.bind(s.target, i)
             ctx = ("FOR-RANGE", src[1], lid)
         elif src[0] == "ENUM":
-            i = ("LOOPIDX", lid)
-            self.bind(s.target, ("TUPLE", i, ("IDX", src[1], i)))
             ctx = ("FOR-RANGE", ("LEN", src[1]), lid)
         else:
-            el = ("LOOPELEM", src, lid)
-            self.bind(s.target, el)
             ctx = ("FOR-EACH", src, lid)
+        before = {k: len(v) for k, v in self.appends.items()}
         self.loopctx = self.loopctx + [ctx]
         self.block(s.body)
         self.loopctx = self.loopctx[:-1]
+        # a list that was empty before the loop and receives exactly one unconditional append per iteration is [entry(I) for I in dom]
+        if not self.loopctx:
+            for key, lst in self.appends.items():
+                new = lst[before.get(key, 0):]
+                if len(new) == 1 and new[0][1] == (ctx,) and self.list_value(key) == ("EMPTY",):
+                    self.set_list(key, self.gen(dom, self.abstract_elem(new[0][0], I)))
+
+    def list_value(self, key):
+        if key.startswith("self."):
+            return self.attrs.get(key[5:])
+        return self.env.get(key)
+
+    def set_list(self, key, v):
+        if key.startswith("self."):
+            self.attrs[key[5:]] = v
+        else:
+            self.env[key] = v
 
     def run(self, fn: ast.FunctionDef):
         self.loopctx, self.stores, self.appends = [], [], {}
@@ -454,27 +541,33 @@ def check_python_block(ctx: core.Ctx, mod: ast.Module, rel="py/formak/python.py"
                        f"user overrides in Config.python_modules is evaluated differently inside a shared sub-expression than outside", line=comp.lineno)
         P = ("CSE.P", ("EXPRS",)) if flag else ("EMPTY",)
         B = ("CSE.B", ("EXPRS",)) if flag else ("EXPRS",)
-        pre = e.attrs.get("_prefix")
-        body = e.attrs.get("_body")
-        aps = [(k, v) for k, v in e.appends.items() if k.endswith("_prefix")]
+        # which attributes hold the two lists is inferred from what is stored, not from their names
+        def has(t, head):
+            return isinstance(t, tuple) and (bool(t) and t[0] == head or any(has(x, head) for x in t if isinstance(x, tuple)))
+        if flag:
+            lam = {k: v for k, v in e.attrs.items() if k not in base and has(v, "LAMBDIFY")}
+            pre_attrs = [k for k, v in lam.items() if v[0] == "GEN" and v[2][0] == "TUPLE"]
+            body_attrs = [k for k, v in lam.items() if k not in pre_attrs]
+            if len(pre_attrs) == 1 and len(body_attrs) == 1:
+                attr_roles = {"prefix": pre_attrs[0], "body": body_attrs[0]}
+            elif "_prefix" in e.attrs or "_body" in e.attrs:
+                attr_roles = {"prefix": "_prefix", "body": "_body"}
+            else:
+                ctx.error(f"{rel}:{qual}: cannot tell which attributes hold the temporaries' and the outputs' callables ({sorted(lam)})")
+                attr_roles = {"prefix": "_prefix", "body": "_body"}
+        pre = e.attrs.get(attr_roles["prefix"])
+        body = e.attrs.get(attr_roles["body"])
         tag = f"[cse={'on' if flag else 'off'}]"
         where = f"{rel}:{qual} {tag}"
-        # ---- prefix entries
-        if not aps:
-            if pre is not None and pre[0] == "MAP":
-                ctx.error(f"{where}: prefix built by a comprehension -- idiom not enumerated")
-            else:
-                ctx.error(f"{where}: no `self._prefix.append(...)` found")
-        for key, lst in aps:
-            for v, lctx in lst:
-                n1 += 1
-                ok, why = _prefix_entry_ok(v, lctx, P, flag)
-                ctx.oblige("TMP-1", where, f"prefix entry {show(v)} in {show(lctx[-1]) if lctx else 'no loop'}", ok, file=rel, func=qual,
-                           construct="prefix entry " + tag, msg=f"prefix entry does not follow the protocol: {why}", line=comp.lineno)
-        # ---- body entries
+        if e.problems:
+            continue                      # un-enumerated idiom: reported above as an analysis error, nothing is derived from a partial evaluation
+        okp, whyp = _prefix_ok(pre, P)
+        n1 += 1
+        ctx.oblige("TMP-1", where, f"prefix = {show(pre) if pre else None}"[:300], okp, file=rel, func=qual, construct="prefix entry " + tag,
+                   msg=f"prefix entry does not follow the protocol: {whyp}", line=comp.lineno)
         okb, whyb = _body_ok(body, P, B)
         n1 += 1
-        ctx.oblige("TMP-1", where, f"body = {show(body) if body else None}", okb, file=rel, func=qual, construct="body entries " + tag,
+        ctx.oblige("TMP-1", where, f"body = {show(body) if body else None}"[:300], okb, file=rel, func=qual, construct="body entries " + tag,
                    msg=f"body callables do not follow the protocol: {whyb}", line=comp.lineno)
     ctx.floor("TMP-1", n1, 4, "prefix/body entry obligations of python.BasicBlock._compile (2 flag settings)")
     # ---- TMP-4: the flag only gates cse() and simplify()
@@ -482,30 +575,26 @@ def check_python_block(ctx: core.Ctx, mod: ast.Module, rel="py/formak/python.py"
     for what, okg, line in gated:
         ctx.oblige("TMP-4", f"{rel}:{qual}", f"CSE flag gates `{what}`", okg, file=rel, func=qual, construct="flag gates " + what[:60],
                    msg=f"the CSE flag also decides `{what}`: results may differ between the two settings", line=line)
-    ctx.floor("TMP-4", len(gated), 2, "uses of the CSE flag in python.BasicBlock._compile")
+    ctx.floor("TMP-4", len(gated), 1, "uses of the CSE flag in python.BasicBlock._compile")
     trust_sig(ctx, rel, qual, comp)
     # ---- TMP-2 execute
-    check_execute(ctx, rel, exe)
+    check_execute(ctx, rel, exe, attr_roles)
 
 
-def _prefix_entry_ok(v, lctx, P, flag):
-    if not lctx:
-        return False, "not appended inside the loop over the cse replacements"
-    loop = lctx[-1]
-    if len(lctx) != 1:
-        return False, "appended inside a nested loop"
-    if loop[0] == "FOR-RANGE":
-        rng = loop[1]
-        lid = loop[2]
-        i = ("LOOPIDX", lid)
-        ok_rng = rng in (("LEN", P), ("LEN", ("MAPITEM", P, 0)))
-        if not ok_rng:
-            return False, f"loop runs over range({show(rng)}), not over all {show(P)}"
-        p_i = ("IDX", P, i)
-    elif loop[0] == "FOR-EACH":
-        return False, "prefix loop iterates elements without an index: earlier-temporaries slice cannot be formed"
-    else:
-        return False, "unknown loop"
+def _prefix_ok(pre, P):
+    I = ("I",)
+    if pre is None:
+        return False, "self._prefix is never assigned"
+    if P == ("EMPTY",):
+        return (pre == ("EMPTY",)), f"without CSE the prefix list is {show(pre)}, not empty"
+    if pre[0] != "GEN":
+        return False, f"self._prefix = {show(pre)} is not one entry per cse replacement"
+    dom, v = pre[1], pre[2]
+    if dom != ("DOM", P):
+        if dom[0] == "DOM":
+            return False, f"the prefix entries are built over {show(dom[1])}, not over all of {show(P)} in their own order"
+        return False, f"the prefix loop runs over {show(dom)}, not over all of {show(P)}"
+    p_i = ("IDX", P, I)
     if v[0] != "TUPLE" or len(v) != 3:
         return False, f"entry is {show(v)}, not a (symbol, callable) pair"
     symt, lam = v[1], v[2]
@@ -515,7 +604,7 @@ def _prefix_entry_ok(v, lctx, P, flag):
         return False, f"entry callable is {show(lam)}"
     formals, expr = lam[1], lam[2]
     Tl = ("MAPITEM", P, 0)
-    want_formals = ("CONCAT", ("ARGS",), ("SLICE", Tl, None, i))
+    want_formals = ("CONCAT", ("ARGS",), ("SLICE", Tl, None, I))
     if formals != want_formals:
         if formals == ("CONCAT", ("ARGS",), Tl):
             return False, "prefix i is compiled over ALL temporaries; execute() only has the earlier ones when it is called"
@@ -526,23 +615,22 @@ def _prefix_entry_ok(v, lctx, P, flag):
 
 
 def _body_ok(body, P, B):
+    I = ("I",)
     if body is None:
         return False, "self._body is never assigned"
-    if body[0] != "MAP":
-        return False, f"self._body = {show(body)} is not a comprehension over the (post-CSE) expressions"
-    src, f = body[1], body[2]
-    if src != B:
-        return False, f"body iterates {show(src)}, expected {show(B)}"
+    if body[0] != "GEN":
+        return False, f"self._body = {show(body)} is not one callable per (post-CSE) expression"
+    dom, f = body[1], body[2]
+    if dom != ("DOM", B):
+        return False, f"body iterates {show(dom)}, expected {show(B)}"
     if f[0] != "LAMBDIFY":
         return False, f"body entries are {show(f)}"
     Tl = ("MAPITEM", P, 0)
     want = ("ARGS",) if P == ("EMPTY",) else ("CONCAT", ("ARGS",), Tl)
     got = f[1]
-    if got == ("CONCAT", ("ARGS",), ("MAPITEM", ("EMPTY",), 0)):
-        got = ("ARGS",)
     if got != want:
         return False, f"body callables are compiled over {show(f[1])}; required ARGS + all temporaries"
-    if _strip_simplify(f[2]) != ("IT",):
+    if _strip_simplify(f[2]) != ("IDX", B, I):
         return False, f"body callable evaluates {show(f[2])}, not its own expression"
     return True, ""
 
@@ -550,6 +638,12 @@ def _body_ok(body, P, B):
 def _flag_gates(fn, flagname):
     """for each use of the flag: what does it decide?  accepted: a call of cse()/simplify() (If body or IfExp arm)"""
     out = []
+    # local names that are plain copies of the flag (use_cse = self._config.common_subexpression_elimination)
+    aliases = {flagname}
+    for a in ast.walk(fn):
+        if isinstance(a, ast.Assign) and len(a.targets) == 1 and isinstance(a.targets[0], ast.Name) and isinstance(a.value, ast.Attribute) \
+                and a.value.attr == flagname:
+            aliases.add(a.targets[0].id)
     for n in ast.walk(fn):
         test = None
         if isinstance(n, ast.If):
@@ -558,7 +652,7 @@ def _flag_gates(fn, flagname):
         elif isinstance(n, ast.IfExp):
             test = n.test
             arms = [n.body, n.orelse]
-        if test is None or flagname not in ast.unparse(test):
+        if test is None or not any((isinstance(x, ast.Name) and x.id in aliases) or (isinstance(x, ast.Attribute) and x.attr in aliases) for x in ast.walk(test)):
             continue
         ok = True
         what = []
@@ -583,10 +677,11 @@ def _flag_gates(fn, flagname):
     return out
 
 
-def check_execute(ctx, rel, exe: ast.FunctionDef):
+def check_execute(ctx, rel, exe: ast.FunctionDef, attr_roles=None):
+    attr_roles = attr_roles or {"prefix": "_prefix", "body": "_body"}
     qual = "BasicBlock.execute"
     where = f"{rel}:{qual}"
-    e = Eval(ctx, rel, qual, True, {"_prefix": ("PREFIX",), "_body": ("BODY",)})
+    e = Eval(ctx, rel, qual, True, {attr_roles["prefix"]: ("PREFIX",), attr_roles["body"]: ("BODY",)})
     # parameters
     va = exe.args.vararg.arg if exe.args.vararg else None
     kwa = exe.args.kwarg.arg if exe.args.kwarg else None
@@ -608,7 +703,7 @@ def check_execute(ctx, rel, exe: ast.FunctionDef):
         if not lctx or lctx[-1][0] != "FOR-EACH" or lctx[-1][1] != ("PREFIX",) or len(lctx) != 1:
             ok, why = False, f"temporaries are stored in a loop over {show(lctx[-1][1]) if lctx else 'nothing'}, not over the prefix list in order"
         else:
-            el = ("LOOPELEM", ("PREFIX",), lctx[-1][2])
+            el = ("IDX", ("PREFIX",), ("I", lctx[-1][2]))
             if key != ("STR", ("ITEM", el, 0)):
                 ok, why = False, f"value stored under {show(key)}, not under str(<its own symbol>)"
             elif v[0] != "APPLY" or v[1] != ("ITEM", el, 1):
@@ -627,7 +722,7 @@ def check_execute(ctx, rel, exe: ast.FunctionDef):
         if not lctx or lctx[-1][0] != "FOR-EACH" or lctx[-1][1] != ("BODY",) or len(lctx) != 1:
             ok, why = False, f"results are yielded from a loop over {show(lctx[-1][1]) if lctx else 'nothing'}, not over the body callables in order"
         else:
-            el = ("LOOPELEM", ("BODY",), lctx[-1][2])
+            el = ("IDX", ("BODY",), ("I", lctx[-1][2]))
             if v is None or v[0] != "APPLY" or v[1] != el:
                 ok, why = False, f"yielded value is {show(v)}, not the result of the body callable"
             elif tdict is None:
@@ -638,7 +733,7 @@ def check_execute(ctx, rel, exe: ast.FunctionDef):
                    msg=f"body evaluation does not follow the protocol: {why}", line=exe.lineno)
     # order: prefix loop precedes body loop
     loops = [s for s in exe.body if isinstance(s, ast.For)]
-    order_ok = len(loops) >= 2 and "_prefix" in ast.unparse(loops[0].iter) and "_body" in ast.unparse(loops[-1].iter)
+    order_ok = len(loops) >= 2 and attr_roles["prefix"] in ast.unparse(loops[0].iter) and attr_roles["body"] in ast.unparse(loops[-1].iter)
     ctx.oblige("TMP-2", where, "prefix loop precedes body loop", order_ok, file=rel, func=qual, construct="loop order",
                msg="the temporaries are not all evaluated before the first body callable runs", line=exe.lineno)
     ctx.floor("TMP-2", n, 2, "temporary store + body yield in python.BasicBlock.execute")
@@ -701,7 +796,7 @@ def check_cpp_block(ctx: core.Ctx, mod: ast.Module, rel="py/formak/cpp.py"):
             else:
                 _, v, lctx = pre[0]
                 loop = lctx[-1]
-                el = ("LOOPELEM", loop[1], loop[2])
+                el = ("IDX", loop[1], ("I", loop[2]))
                 if loop[1] != P:
                     okp, why = False, f"the temporaries loop iterates {show(loop[1])}, not the cse replacement list itself in its own order"
                 elif v is None or v[0] != "MEMBER" or len(v) != 4:
@@ -725,11 +820,11 @@ def check_cpp_block(ctx: core.Ctx, mod: ast.Module, rel="py/formak/cpp.py"):
                 okt, why = False, "targets are not yielded from a loop"
             else:
                 loop = lctx[-1]
-                el = ("LOOPELEM", loop[1], loop[2])
+                Iz = ("I", loop[2])
                 if loop[1] != ("ZIP", ("TARGETS",), B):
                     okt, why = False, f"targets loop iterates {show(loop[1])}; required zip(targets, post-CSE expressions) in order"
-                elif v is None or v[0] != "MEMBER" or len(v) != 4 or v[2] != ("ITEM", el, 0) or \
-                        not (v[3][0] == "CCODE" and _strip_simplify(v[3][1]) == ("ITEM", el, 1)):
+                elif v is None or v[0] != "MEMBER" or len(v) != 4 or v[2] != ("IDX", ("TARGETS",), Iz) or \
+                        not (v[3][0] == "CCODE" and _strip_simplify(v[3][1]) == ("IDX", B, Iz)):
                     okt, why = False, f"target is emitted as {show(v)}; required `<target> = ccode(<its own expression>)`"
         n += 1
         ctx.oblige("TMP-3", where, f"target yield(s): {[show(y[1]) for y in tgt]}", okt, file=rel, func=qual, construct="target assignments " + tag,
@@ -745,7 +840,7 @@ def check_cpp_block(ctx: core.Ctx, mod: ast.Module, rel="py/formak/cpp.py"):
         ctx.oblige("TMP-4", f"{rel}:{qual}", f"CSE flag gates `{what}`", okg, file=rel, func=qual, construct="flag gates " + what[:60],
                    msg=f"the CSE flag also decides `{what}`", line=line)
     ctx.floor("TMP-3", n, 3, "prefix/target obligations of cpp.BasicBlock.compile")
-    ctx.floor("TMP-4c", len(gated), 3, "uses of the CSE flag in cpp.BasicBlock.compile")
+    ctx.floor("TMP-4c", len(gated), 1, "uses of the CSE flag in cpp.BasicBlock.compile")
     trust_sig(ctx, rel, qual, comp)
 
 
